@@ -77,7 +77,12 @@ def hbody(mc, p):
         args[p["shield"]] = F.f_nocancel(ins[p["shield"]])
     if p["dup"]:
         args = args + [args[0]]
+    if p.get("proxy") is not None:
+        args[p["proxy"]] = F.f_proxy(ins[p["proxy"]])        # the input is itself a library future
     out = (F.f_or if p["op"] == "or" else F.f_and)(*args)
+    if p.get("cbcancel"):
+        # a consumer's callback on the output that cancels the sibling inputs
+        out.add_done_callback(lambda _f: [i.cancel() for i in ins])
     order = []
     pending = [i for i in range(n) if outs[i] not in ("never", "running")]
     cancelled_out = False
@@ -164,6 +169,9 @@ for _op in ("or", "and"):
         _special.append(dict(op=_op, outs=_outs, shield=0, dup=False))
         _special.append(dict(op=_op, outs=_outs, shield=1, dup=False))
         _special.append(dict(op=_op, outs=_outs, shield=None, dup=True))
+        _special.append(dict(op=_op, outs=_outs, shield=None, dup=False, proxy=0))
+        _special.append(dict(op=_op, outs=_outs, shield=None, dup=False, proxy=1))
+        _special.append(dict(op=_op, outs=_outs, shield=None, dup=False, cbcancel=True))
 harness("c14.special", prop="C14", traced=(), horizon=20, params=_special)(hbody)
 oracle("c14.special")(hcheck)
 
